@@ -48,14 +48,21 @@ Fixpoint resolve_headers (en : env) (hs : list (string * string)) : string + lis
 Record settings := { s_url : string; s_headers : list (string * string); s_verify : bool }.
 
 (* what httpx.post is called with *)
+(* the options of get_introspection_query: since b147fbc the FULL query is sent *)
+Record qflags := { qf_descriptions : bool; qf_specified_by_url : bool; qf_directive_is_repeatable : bool;
+                   qf_schema_description : bool; qf_input_value_deprecation : bool }.
+Definition full_query : qflags :=
+  {| qf_descriptions := true; qf_specified_by_url := true; qf_directive_is_repeatable := true;
+     qf_schema_description := true; qf_input_value_deprecation := true |}.
+
 Record request := { q_url : string; q_headers : list (string * string); q_verify : bool;
-                    q_descriptions : bool }.
+                    q_query : qflags }.
 
 Definition request_of (en : env) (s : settings) : string + request :=
   match resolve_headers en (s_headers s) with
   | inl n => inl n
   | inr hs => inr {| q_url := s_url s; q_headers := hs; q_verify := s_verify s;
-                     q_descriptions := false |}
+                     q_query := full_query |}
   end.
 
 (* ================= 2. the decision chain ================= *)
@@ -162,19 +169,15 @@ Definition any_failure (u : urlclass) (r : response) (deep : option string) : bo
 (* ================= 3. what introspection keeps of the input types ================= *)
 Definition inputs := list (string * list ifield).
 
-(* build_client_schema(introspection_from_schema(S)): no AST nodes; default VALUES kept
-   (defaultValue is printed and re-coerced); deprecated input fields are not even asked for
-   (get_introspection_query(input_value_deprecation=False)) *)
-(* (the value is kept exactly when the schema has no deprecated input field; otherwise keys that
-   name deprecated fields of nested input objects are dropped from object values too - the tie
-   checks that refinement, no theorem uses the value in that case) *)
+(* build_client_schema(introspection(S)) for the full query: no AST nodes; default VALUES kept
+   (defaultValue is printed and re-coerced); deprecated input fields are transmitted too
+   (input_value_deprecation=True since b147fbc) with their deprecation *)
 Definition via_field (f : ifield) : ifield :=
   {| if_name := if_name f; if_type := if_type f; if_ast_default := None;
      if_value_default := if_value_default f; if_has_node := false;
      if_deprecated := if_deprecated f |}.
 
-Definition via_fields (fs : list ifield) : list ifield :=
-  map via_field (filter (fun f => negb (if_deprecated f)) fs).
+Definition via_fields (fs : list ifield) : list ifield := map via_field fs.
 
 Definition via_introspection (s : inputs) : inputs := map (fun p => (fst p, via_fields (snd p))) s.
 
@@ -302,7 +305,10 @@ Definition run_introspect (e : sexp) : sexp :=
           match request_of en {| s_url := url; s_headers := hs; s_verify := v |} with
           | inl n => L [A "err"; A n]
           | inr q => L [A "ok"; A (q_url q); L (map (fun p => L [A (fst p); A (snd p)]) (q_headers q));
-                        sB (q_verify q); sB (q_descriptions q)]
+                        sB (q_verify q);
+                        L (map sB [qf_descriptions (q_query q); qf_specified_by_url (q_query q);
+                                   qf_directive_is_repeatable (q_query q); qf_schema_description (q_query q);
+                                   qf_input_value_deprecation (q_query q)])]
           end
       | _, _, _ => sErr "request" end
   | L [A "outcome"; u; st; body; deep] =>
